@@ -748,6 +748,7 @@ class ParallelProcess(Process):
             args=(child, process, self.profile))
         self.multiprocess.start()
         self._ended = False
+        self._uncollected_result: Optional[tuple] = None
         self._pending_command: Optional[
             Tuple[str, Optional[tuple], Optional[dict]]] = None
 
@@ -783,6 +784,11 @@ class ParallelProcess(Process):
         Returns:
             The command result.
         """
+        if self._uncollected_result is not None:
+            # collected by end()
+            result, = self._uncollected_result
+            self._uncollected_result = None
+            return result
         if not self._pending_command:
             raise RuntimeError(
                 'Trying to retrieve command result, but no command is '
@@ -880,7 +886,10 @@ class ParallelProcess(Process):
                     # A result nobody collected is taken out of the
                     # pipe: the worker may be blocked sending it and
                     # would never read 'end'.
-                    self.parent.recv()
+                    # (it is kept for whoever still asks for it: the
+                    # process may be ended by an update of the very
+                    # batch its own update belongs to)
+                    self._uncollected_result = (self.parent.recv(),)
                     self._pending_command = None
                 self.send_command('end')
                 if self.profile:
